@@ -227,6 +227,10 @@ type exprShape struct {
 	maxDepth  int
 }
 
+// zeroFree makes genExpr avoid literal zeros (used for long chains, which would otherwise
+// nearly always contain a division by a literal zero and never be compared by value).
+var zeroFree = false
+
 func genExpr(t *rapid.T, depth int) string {
 	ws := func() string {
 		return rapid.SampledFrom([]string{"", "", "", " ", "  ", "\t", "\n", " \n ", "\r\n", "\f"}).Draw(t, "ws")
@@ -234,13 +238,17 @@ func genExpr(t *rapid.T, depth int) string {
 	lit := func() string {
 		k := rapid.IntRange(0, 11).Draw(t, "lk")
 		sign := rapid.SampledFrom([]string{"", "", "", "-", "+"}).Draw(t, "sign")
+		lo := 0
+		if zeroFree {
+			lo = 1
+		}
 		switch {
-		case k == 0:
+		case k == 0 && !zeroFree:
 			return sign + "0"
 		case k == 1:
-			return sign + fmt.Sprintf("0x%X", rapid.IntRange(0, 255).Draw(t, "hex"))
+			return sign + fmt.Sprintf("0x%X", rapid.IntRange(lo, 255).Draw(t, "hex"))
 		case k == 2:
-			return sign + fmt.Sprintf("0%o", rapid.IntRange(0, 63).Draw(t, "oct"))
+			return sign + fmt.Sprintf("0%o", rapid.IntRange(lo, 63).Draw(t, "oct"))
 		case k == 3:
 			return sign + strconv.FormatInt(rapid.Int64Range(1, 1<<62).Draw(t, "big"), 10)
 		default:
